@@ -14,12 +14,19 @@ urgency built in: time only passes when the loop goroutine is blocked). -/
 namespace Spec.C17
 open Lazy
 
+/-- `n` quanta with the first ready case and productions of `d` ms -/
+def ticks (n d : Nat) : List In := List.replicate n (In.tick 0 d)
+
+/-- block 4 ms, idle 20 ms, lazy: the configuration of the refusal witness -/
+def cfgR : Cfg := { block := 4, idle := 20, lazy := true }
+
 /-! ## No lost wake-up -/
 
 /-- **No lost wake-up.**  If in a reachable state a notification is pending — waiting in the
 one-slot channel, or already consumed into `txsAvailable` and not being served by the production
 in flight — then a production starts no later than `max now endOfInFlight + blockInterval`, and not
-before the production in flight has ended (it is a *further* block). -/
+before the production in flight has ended (it is a *further* block).  No hypothesis on `c.lazy`: the statement holds for the
+lazy loop (the mode the clause is about) and for the normal loop alike. -/
 theorem no_lost_wakeup (c : Cfg) (hB : 1 ≤ c.block) (hI : 1 ≤ c.idle) (pre post : List In) :
     let s := (run c init pre).1
     Pending s → max s.now (flightEnd s) + c.block < (run c s post).1.now →
@@ -35,7 +42,8 @@ theorem no_lost_wakeup (c : Cfg) (hB : 1 ≤ c.block) (hI : 1 ≤ c.idle) (pre p
 /-- **A notification is followed by a block within one block interval**, whenever it arrives:
 calling `NotifyNewTransactions` in any reachable state `s` — also while the channel is already full
 (the call is then a no-op, the earlier notification is still owed) and also during a production,
-in which case the block is a further one, started after the one in flight has ended. -/
+in which case the block is a further one, started after the one in flight has ended.  Proved for both
+modes (`c.lazy` is not constrained); `notify_leads_to_production_lazy` is the instance the clause names. -/
 theorem notify_leads_to_production (c : Cfg) (hB : 1 ≤ c.block) (hI : 1 ≤ c.idle) (pre post : List In) :
     let s := (run c init pre).1
     max s.now (flightEnd s) + c.block < (run c s (In.notify :: post)).1.now →
@@ -46,6 +54,71 @@ theorem notify_leads_to_production (c : Cfg) (hB : 1 ≤ c.block) (hI : 1 ≤ c.
   simp only [run_append, run, step, List.append_nil] at h hd ⊢
   have h' := h (Or.inl rfl) (by simpa [flightEnd] using hd)
   simpa [flightEnd] using h'
+
+/-- the lazy-mode instance, as the property words it. -/
+theorem notify_leads_to_production_lazy (c : Cfg) (_hl : c.lazy = true) (hB : 1 ≤ c.block) (hI : 1 ≤ c.idle)
+    (pre post : List In) :
+    let s := (run c init pre).1
+    max s.now (flightEnd s) + c.block < (run c s (In.notify :: post)).1.now →
+    ∃ q, q ∈ (run c s (In.notify :: post)).2 ∧ s.now ≤ q ∧ flightEnd s ≤ q ∧
+      q ≤ max s.now (flightEnd s) + c.block :=
+  notify_leads_to_production c hB hI pre post
+
+/-! ## Productions that `publishBlock` refuses (pending limit)
+
+`publishBlockInternal` returns `nil` without producing anything when the number of headers or data
+pending DA submission has reached `MaxPendingHeadersAndData` (block/manager.go, "refusing to create
+block").  The loop cannot tell: it re-arms both timers and, on the block-timer path, clears
+`txsAvailable` — its behaviour is exactly that of the automaton, only the production is not a block.
+A refusal is therefore an attribute the environment gives to a production start (`refusedAt q`), and
+the *blocks* of a run are the production starts that were not refused. -/
+
+/-- the production starts of a run that produced a block. -/
+def blocks (refusedAt : Nat → Bool) (starts : List Nat) : List Nat := starts.filter (fun q => !refusedAt q)
+
+/-- "a notification is not lost: it leads to a further block" with refusals taken into account, as the
+property states it (no exemption for the pending limit). -/
+def C17_no_lost_wakeup_with_refusals_full : Prop :=
+  ∀ (c : Cfg) (refusedAt : Nat → Bool) (pre post : List In), c.lazy = true → 1 ≤ c.block → 1 ≤ c.idle →
+    let s := (run c init pre).1
+    Pending s → max s.now (flightEnd s) + c.block < (run c s post).1.now →
+    ∃ q, q ∈ blocks refusedAt (run c s post).2 ∧ s.now ≤ q ∧ q ≤ max s.now (flightEnd s) + c.block
+
+/-- … which is false of the current code: block 4 ms, idle 20 ms; a notification at 1 is consumed, the
+block tick at 4 starts a production which is refused, `txsAvailable` is cleared — the next production
+is the idle timer's at 24.  Nothing re-arms the wake-up. -/
+theorem no_lost_wakeup_with_refusals_fails : ¬ C17_no_lost_wakeup_with_refusals_full := by
+  intro h
+  have h' := h cfgR (fun q => q == 4) (ticks 2 1 ++ [In.notify]) (ticks 36 0) rfl (by decide) (by decide)
+    (Or.inl (by decide)) (by decide)
+  obtain ⟨q, hq, _, h2⟩ := h'
+  have e : blocks (fun q => q == 4) (run cfgR (run cfgR init (ticks 2 1 ++ [In.notify])).1 (ticks 36 0)).2 = [24] := by
+    decide
+  rw [e] at hq
+  have hq' : q = 24 := by simpa using hq
+  have e2 : max (run cfgR init (ticks 2 1 ++ [In.notify])).1.now (flightEnd (run cfgR init (ticks 2 1 ++ [In.notify])).1)
+      + cfgR.block = 5 := by decide
+  rw [e2, hq'] at h2
+  omega
+
+/-- **No lost wake-up (partial, refusals)**: when no production that starts within the bound is refused
+— in particular when the pending limit is not reached (C08) — the pending notification leads to a
+*block* within the bound. -/
+theorem no_lost_wakeup_with_refusals_partial (c : Cfg) (refusedAt : Nat → Bool) (hB : 1 ≤ c.block) (hI : 1 ≤ c.idle)
+    (pre post : List In) :
+    let s := (run c init pre).1
+    Pending s → max s.now (flightEnd s) + c.block < (run c s post).1.now →
+    (∀ q, q ∈ (run c s post).2 → q ≤ max s.now (flightEnd s) + c.block → refusedAt q = false) →
+    ∃ q, q ∈ blocks refusedAt (run c s post).2 ∧ s.now ≤ q ∧ flightEnd s ≤ q ∧
+      q ≤ max s.now (flightEnd s) + c.block := by
+  intro s hp hd hr
+  obtain ⟨q, hq, h1, h2, h3⟩ := no_lost_wakeup c hB hI pre post hp hd
+  exact ⟨q, List.mem_filter.mpr ⟨hq, by simp [hr q hq h3]⟩, h1, h2, h3⟩
+
+/-- the `_partial` hypothesis is satisfiable with a refusal elsewhere in the run: the production at 24
+is refused, the one at 4 — the one the notification is owed — is a block. -/
+example : blocks (fun q => q == 24) (run cfgR (run cfgR init (ticks 2 1 ++ [In.notify])).1 (ticks 36 0)).2 = [4] := by
+  decide
 
 /-! ## The clause by the letter: "within one block interval after it is notified" -/
 
@@ -196,9 +269,6 @@ theorem normal_progress (c : Cfg) (hl : c.lazy = false) (hB : 1 ≤ c.block) (hI
   exact ⟨q, hq, run_out_ge_flightEnd c post s q hq, by simpa using h2⟩
 
 /-! ## Non-vacuity: the hypotheses are satisfiable and the conclusions are about real productions -/
-
-/-- `n` quanta with the first ready case and productions of `d` ms -/
-def ticks (n d : Nat) : List In := List.replicate n (In.tick 0 d)
 
 def cfgA : Cfg := { block := 4, idle := 20, lazy := true }
 
